@@ -153,6 +153,23 @@ func (Engine) Execute(planJSON json.RawMessage, scratch string) (res sim.RunResu
 		res.NonTriv = c["probe_convert_applied"] > 0 || c["probe_on_demand_conversion"] > 0
 	case "C09":
 		res.NonTriv = s.drainN > 0 && res.NonTriv
+	case "C20":
+		// no oracle probes in race runs: non-trivial = API calls were made while jobs were parked or running
+		overlap := false
+		open := 0
+		for _, l := range s.steps {
+			switch {
+			case strings.HasPrefix(l, "body:"):
+				open++
+			case strings.HasPrefix(l, "post:"):
+				if open > 0 {
+					open--
+				}
+			case strings.HasPrefix(l, "api:") && open > 0:
+				overlap = true
+			}
+		}
+		res.NonTriv = overlap
 	}
 	if ents, err := os.ReadDir(vdir); err == nil {
 		for _, e := range ents {
